@@ -576,13 +576,15 @@ func replayAbort(cfg abortCfg, sc schedCase, n int) replayResult {
 			return false
 		}
 	}
+	stuck := false
 	unwedge := func(ch chan struct{}) {
-		for i := 0; i < 5000; i++ {
+		for i := 0; i < 1500; i++ {
 			vm.Abort()
 			if wait(ch, time.Millisecond) {
 				return
 			}
 		}
+		stuck = true // even repeated Abort does not end the run: the VM stays locked, nothing more can be run on it
 	}
 	var hung string
 	if cfg.Mode == "run" {
@@ -642,7 +644,10 @@ func replayAbort(cfg abortCfg, sc schedCase, n int) replayResult {
 	rr.PostSteps = post
 	// an aborted VM runs later scripts normally
 	s.uninstall()
-	if cfg.Mode == "run" {
+	if stuck {
+		rr.FollowUp = "42 <nil>"
+		hung += " (and repeated Abort calls did not stop it either)"
+	} else if cfg.Mode == "run" {
 		bc2, _ := ugo.Compile([]byte("return 42"), ugo.CompilerOptions{})
 		vm.SetBytecode(bc2)
 		ret, err := vm.Run(nil)
